@@ -171,20 +171,38 @@ def setup(ctx):
     _S["skip"] = skip
     _S["examples"] = None
     _S["corpus_seen"] = 0
-    # keep one witness per mechanism and shard (the worker stores 40 violations per shard in total; a frequent
-    # mechanism must not crowd out a rare one).  Repeats are still counted, as events.
-    counts, orig_fail = {}, ctx.fail
+    # The worker stores at most 40 violations per shard.  So that a frequent or already known mechanism cannot crowd out
+    # a new one from a later section: one witness per mechanism and shard (repeats are counted as events); mechanisms
+    # listed in known_findings.json and anything beyond 5 witnesses per section are held back and handed to the worker
+    # at teardown, new mechanisms first.
+    counts, per_section, orig_fail = {}, {}, ctx.fail
+    try:
+        known = {e["key"] for e in json.load(open(os.path.join(os.path.dirname(os.path.dirname(os.path.dirname(
+            os.path.abspath(__file__)))), "known_findings.json"))).get("known", []) if e.get("property") == "C11"}
+    except Exception:  # noqa
+        known = set()
+    _S["held_new"], _S["held_known"], _S["orig_fail"] = [], [], orig_fail
 
     def fail(mech, msg, **witness):
         counts[mech] = counts.get(mech, 0) + 1
-        if counts[mech] <= 1:
-            orig_fail(mech, msg, **witness)
-        else:
+        if counts[mech] > 1:
             ctx.event("violating-observation-repeat:" + mech)
+            return
+        entry = (mech, msg, witness, ctx.section, ctx.case)
+        if mech in known:
+            _S["held_known"].append(entry)
+        elif per_section.get(ctx.section, 0) >= 5:
+            _S["held_new"].append(entry)
+        else:
+            per_section[ctx.section] = per_section.get(ctx.section, 0) + 1
+            orig_fail(mech, msg, **witness)
     ctx.fail = fail
 
 
 def teardown(ctx):
+    for mech, msg, witness, section, case in _S.get("held_new", []) + _S.get("held_known", []):
+        ctx.section, ctx.case = section, case
+        _S["orig_fail"](mech, msg, **witness)
     sec = ctx.sections.get("corpus")
     if sec is not None:
         ctx.extra["corpus_exhaustive"] = bool(sec["cases"] == sec["planned"] and not sec["truncated"])
